@@ -274,6 +274,31 @@ class Ctx(object):
         os.unlink(vout)
         return out, r
 
+    def tlc_shards(self, module, cfg, nshards=NCPU, env=None, **kw):
+        """Run `nshards` TLC processes in parallel (IOEnv.SHARD / IOEnv.NSHARD
+        select the slice); each writes JSON to IOEnv.VOUT.  Returns the list
+        of decoded outputs."""
+        from concurrent.futures import ThreadPoolExecutor
+
+        def one(k):
+            vout = os.path.join(self.scratch, 'shard_%s_%d.json' % (module, k))
+            ee = dict(env or {})
+            ee.update({'SHARD': k, 'NSHARD': nshards, 'VOUT': vout})
+            r = self.tlc(module, cfg, env=ee, workers=1, count=False, **kw)
+            if not os.path.exists(vout):
+                raise MachineryError('shard %d of %s wrote no output:\n%s'
+                                     % (k, module, '\n'.join(r.out.splitlines()[-30:])))
+            with open(vout) as f:
+                out = json.load(f)
+            os.unlink(vout)
+            return out, r
+        with ThreadPoolExecutor(max_workers=min(nshards, NCPU)) as ex:
+            res = list(ex.map(one, range(nshards)))
+        for _, r in res:
+            self.states += r.distinct
+            self.transitions += r.generated
+        return [o for o, _ in res]
+
     # ---------------- finish ----------------
     def finish(self):
         wall = time.time() - self.t0
